@@ -133,7 +133,7 @@ def run(ctx):
             evals += 1
             per_kind[kind] = per_kind.get(kind, 0) + 1
             m = model.get(cid)
-            if m is None and kind != "B":
+            if m is None and kind not in ("B", "U"):
                 raise C.BuildError("model produced no result for case %s" % cid)
             if kind == "A":
                 v, impl = r[2], r[3]
@@ -174,6 +174,15 @@ def run(ctx):
                          "messages of %s bytes, mode %s, end to end over TCP: expected %s, got %s" % (lens, v, expect, short(impl, 300)),
                          {"kind": "B", "v": v, "lens": lens, "expected": expect, "got": impl,
                           "oracle": "direct: pattern payloads, reference headers (tied to the model by the H cases)"})
+            elif kind == "U":
+                v, scen, impl, expect, cls = r[2], r[3], r[4], r[5], r[6]
+                nontrivial.add(("U", v, scen))
+                if impl != expect:
+                    viol("conn:%s:%s" % (v, scen),
+                         "one connection, mode %s, scenario %s (W<n> = WriteMsg of n bytes, R<n> = ReadMsg of the peer's n-byte message; dense = every "
+                         "multiple of 4 in the range; stall = the peer reads late): %s" % (v, scen, short(impl, 400)),
+                         {"kind": "U", "v": v, "scenario": scen, "expected": expect, "got": impl,
+                          "oracle": "direct: reference framing of the harness (tied to the model by the F / R cases)"})
             elif kind == "F":
                 v, msgs, ref, impl = r[2], r[3], r[4], r[5]
                 fcls = r[6] if len(r) > 6 else "writer-tcp"
@@ -352,6 +361,8 @@ def replay(ctx, path):
         cmd = [hb, "one", "T", obj["v"], arg(obj["stream_hex"]), arg(obj["sizes"])]
     elif kind == "W":
         cmd = [hb, "one", "W", obj["v"], arg(obj["msg_hex"])]
+    elif kind == "U":
+        cmd = [hb, "one", "U", obj["v"], obj["scenario"]]
     elif kind == "F":
         cmd = [hb, "one", "F", obj["v"], arg(obj["msgs_hex"])]
     elif kind == "FT":
